@@ -234,7 +234,8 @@ class LiteralProvider(LoaderProvider, DumperProvider):
         allowed_values_repr = self._get_allowed_values_repr(norm.args, mediator, request.loc_stack)
         return mediator.cached_call(
             self._make_loader,
-            cases=norm.args,
+            # (0, 1) == (False, True), so types of cases must be a part of cache key
+            cases_with_types=tuple((type(arg), arg) for arg in norm.args),
             bytes_cases=bytes_cases,
             strict_coercion=strict_coercion,
             enum_loaders=enum_loaders,
@@ -245,13 +246,14 @@ class LiteralProvider(LoaderProvider, DumperProvider):
     def _make_loader(
         self,
         *,
-        cases: Sequence[Any],
+        cases_with_types: Sequence[tuple[type, Any]],
         strict_coercion: bool,
         enum_loaders: Sequence[Loader],
         allowed_values_repr: Collection[str],
         bytes_cases: Sequence[bytes],
         bytes_loader: Loader[bytes],
     ) -> Loader:
+        cases = tuple(case for _, case in cases_with_types)
         if strict_coercion and any(isinstance(arg, bool) or _is_exact_zero_or_one(arg) for arg in cases):
             allowed_values_with_types = self._get_allowed_values_collection(
                 [(type(el), el) for el in cases],
